@@ -1,4 +1,4 @@
 SPECIFICATION MCSpec
-CONSTANTS Tier = "thorough" MaxLen = 5
+CONSTANTS Tier = "thorough" MaxLen = 5 Part = "main"
 INVARIANT RefVerifyOK RefGenerateOK RefSetKeyOK ConfigOnlyFromConfigCalls Emit
 CHECK_DEADLOCK FALSE
